@@ -155,7 +155,7 @@ class FilesWorld:
             r = ro.random()
             if not inputs or r < 0.2:
                 enc = ro.choice(["utf-8"] * 4 + ["utf-8-sig", "utf-16", "latin-1", "cp1251"])
-                d = ro.choice(["in", "in", "in2"])
+                d = ro.choice(["in", "in", "in2", "rel-1.2"])      # a directory name with a dot in it
                 name = ro.choice(NAMES_SINGLE * 3 + NAMES_ODD)
                 text, it = self._text(rw, enc, clean_only=(d == "in2"))
                 put = {"op": "put", "dir": d, "name": name, "text": text, "enc": enc}
@@ -220,7 +220,8 @@ class FilesWorld:
             else:
                 text, it2 = self._text(rw, "utf-8")
                 op = {"op": "api_dump", "text": text, "settings": dict(it2.get("flags") or {}), "kw": self._kw(ro, it2),
-                      "file_path": ro.choice(["some/where/" + n for n in NAMES_SINGLE + NAMES_ODD[:2]] + [os.path.join("in", name)]),
+                      "file_path": ro.choice(["some/where/" + n for n in NAMES_SINGLE + NAMES_ODD[:2]] + [os.path.join("in", name)] +
+                                             ["./t.sql", "../up.ddl", "rel-1.2/" + name, "my.project/ddl/customers", "v1.0/x.hql"]),
                       "dump_path": ro.choice(DUMP_PATHS), "faults": [f for f in faults if f["site"] != "input_open"]}
                 ops.append(op)
                 last_dump = op
@@ -316,7 +317,7 @@ class FilesWorld:
         root = os.path.join(self.workroot, "c19-%d" % self.runs_done)
         self.runs_done += 1
         shutil.rmtree(root, ignore_errors=True)
-        for d in ("in", "in2", "cwd"):
+        for d in ("in", "in2", "cwd", "rel-1.2"):
             os.makedirs(os.path.join(root, d))
         os.chdir(os.path.join(root, "cwd"))
         stats = collections.Counter()
@@ -772,7 +773,13 @@ class _NamedExc(Exception):
     """Stand-in for an exception that ended a CLI subprocess (only its type name is known)."""
 
     def __new__(cls, name, text):
-        return type(str(name) or "Unknown", (Exception,), {})(text)
+        import builtins
+        base = getattr(builtins, str(name), None)
+        if not (isinstance(base, type) and issubclass(base, Exception)):
+            base = Exception
+        # keep the family: an OSError subclass that ended the subprocess must still count as an OSError (the oracle
+        # relaxes only for OSErrors under an injected / environmental I/O fault)
+        return type(str(name) or "Unknown", (base,), {"__init__": lambda self, *a: Exception.__init__(self, *a)})(text)
 
 
 def _path_blocked(tgt_abs, before, root):
